@@ -50,7 +50,9 @@ type VC struct {
 	notes      []string
 	globals    map[*ssa.Global]string
 	specDecl   map[string]bool
+	written    map[string]bool // heap maps written somewhere in this function (incl. inlined callees, callee frames)
 	noDef      int
+	ufs        map[string][2]interface{}
 	modelTerms []modelTerm
 	replay     *replayInfo
 }
@@ -58,7 +60,7 @@ type VC struct {
 func newVC(e *Engine, fnName string) *VC {
 	vc := &VC{e: e, fnName: fnName, strIDs: map[string]int{}, heapSort: map[string]string{}, declared: map[string]bool{},
 		typeIDs: map[string]int{}, modelVar: map[string]string{}, counters: map[string]int{}, usedExt: map[string]bool{},
-		globals: map[*ssa.Global]string{}, specDecl: map[string]bool{}}
+		globals: map[*ssa.Global]string{}, specDecl: map[string]bool{}, written: map[string]bool{}}
 	vc.decls = append(vc.decls,
 		"(declare-sort Float 0)",
 		"(declare-fun float_zero () Float)",
@@ -174,6 +176,10 @@ func (o *Obligation) script(withModel bool) string {
 	var b strings.Builder
 	b.WriteString("(set-option :produce-models true)\n")
 	b.WriteString("(set-logic ALL)\n")
+	for _, d := range o.vc.ufDecls() {
+		b.WriteString(d)
+		b.WriteByte('\n')
+	}
 	for _, d := range o.vc.decls[:o.NDecl] {
 		b.WriteString(d)
 		b.WriteByte('\n')
@@ -372,6 +378,7 @@ func (e *Engine) heapGet(st *State, name, sort string) string {
 
 func (e *Engine) heapSet(st *State, name, sort, term string) {
 	e.vc.heapSort[name] = sort
+	e.vc.written[name] = true
 	st.heap[name] = e.vc.define("H_"+name, sort, term)
 }
 
@@ -520,4 +527,23 @@ func (e *Engine) assumeLeafRange(l Leaf, n string, pc string, st *State) {
 	case lkTag:
 		e.vc.assume("true", fmt.Sprintf("(<= 0 %s)", n))
 	}
+}
+
+// ufDecls declares the uninterpreted bit operators used by int-mode code, with
+// the range of their results.
+func (vc *VC) ufDecls() []string {
+	var names []string
+	for n := range vc.ufs {
+		names = append(names, n)
+	}
+	sortStrings(names)
+	var out []string
+	a := &Arith{mode: ModeInt}
+	for _, n := range names {
+		w := vc.ufs[n][0].(int)
+		s := vc.ufs[n][1].(bool)
+		out = append(out, fmt.Sprintf("(declare-fun %s (Int Int) Int)", n))
+		out = append(out, fmt.Sprintf("(assert (forall ((x Int) (y Int)) (! %s :pattern ((%s x y)))))", a.InRange(fmt.Sprintf("(%s x y)", n), w, s), n))
+	}
+	return out
 }
